@@ -225,4 +225,1533 @@ theorem readFrom_eq (v : Variant) (root : Nat) (rem : Str) :
 
 theorem Iter.stream_def (v : Variant) (it : Iter) : it.stream v = readFrom v it.root it.rem := rfl
 
+/-! ### components in reading order -/
+
+/-- components in reading order (last component first): drop the ignorable ones and, for every `..`, one real
+    component; `n` = number of real components still to drop.  Result: the list from the first surviving one on. -/
+def skn : Nat → List Str → List Str
+  | _, [] => []
+  | n, c :: cs =>
+    if ignorable c then skn n cs
+    else if c == dotdot then skn (n + 1) cs
+    else if n > 0 then skn (n - 1) cs
+    else c :: cs
+
+/-- all surviving components, reading order -/
+def rnorm : Nat → List Str → List Str
+  | _, [] => []
+  | n, c :: cs =>
+    if ignorable c then rnorm n cs
+    else if c == dotdot then rnorm (n + 1) cs
+    else if n > 0 then rnorm (n - 1) cs
+    else c :: rnorm 0 cs
+
+theorem skn_suffix : ∀ (cs : List Str) (m : Nat), ∃ pre, cs = pre ++ skn m cs := by
+  intro cs
+  induction cs with
+  | nil => intro m; exact ⟨[], rfl⟩
+  | cons c cs ih =>
+    intro m
+    simp only [skn]
+    split
+    · obtain ⟨pre, h⟩ := ih m; exact ⟨c :: pre, by simp [← h]⟩
+    · split
+      · obtain ⟨pre, h⟩ := ih (m + 1); exact ⟨c :: pre, by simp [← h]⟩
+      · split
+        · obtain ⟨pre, h⟩ := ih (m - 1); exact ⟨c :: pre, by simp [← h]⟩
+        · exact ⟨[], rfl⟩
+
+theorem skn_succ_of_cons : ∀ (cs : List Str) (m : Nat) (c : Str) (r : List Str),
+    skn m cs = c :: r → skn (m + 1) cs = skn 0 r := by
+  intro cs
+  induction cs with
+  | nil => intro m c r h; simp [skn] at h
+  | cons x xs ih =>
+    intro m c r h
+    simp only [skn] at h ⊢
+    by_cases h1 : ignorable x = true
+    · simp only [h1, if_true] at h ⊢; exact ih m c r h
+    · simp only [h1, Bool.false_eq_true, if_false] at h ⊢
+      by_cases h2 : (x == dotdot) = true
+      · simp only [h2, if_true] at h ⊢; exact ih (m + 1) c r h
+      · simp only [h2, Bool.false_eq_true, if_false] at h ⊢
+        by_cases h3 : m > 0
+        · simp only [h3, if_true] at h
+          have : m + 1 > 0 := by omega
+          simp only [this, if_true, Nat.add_sub_cancel]
+          have := ih (m - 1) c r h
+          have e : m - 1 + 1 = m := by omega
+          rw [e] at this; exact this
+        · simp only [h3, if_false] at h
+          have hm : m = 0 := by omega
+          subst hm
+          simp only [Nat.zero_add, Nat.lt_irrefl, if_false, gt_iff_lt, Nat.lt_add_one, if_true, Nat.sub_self]
+          have := List.cons.inj h
+          rw [this.2]
+
+theorem skn_succ_of_nil : ∀ (cs : List Str) (m : Nat), skn m cs = [] → skn (m + 1) cs = [] := by
+  intro cs
+  induction cs with
+  | nil => intro m _; simp [skn]
+  | cons x xs ih =>
+    intro m h
+    simp only [skn] at h ⊢
+    by_cases h1 : ignorable x = true
+    · simp only [h1, if_true] at h ⊢; exact ih m h
+    · simp only [h1, Bool.false_eq_true, if_false] at h ⊢
+      by_cases h2 : (x == dotdot) = true
+      · simp only [h2, if_true] at h ⊢; exact ih (m + 1) h
+      · simp only [h2, Bool.false_eq_true, if_false] at h ⊢
+        by_cases h3 : m > 0
+        · simp only [h3, if_true] at h
+          have : m + 1 > 0 := by omega
+          simp only [this, if_true, Nat.add_sub_cancel]
+          have := ih (m - 1) h
+          have e : m - 1 + 1 = m := by omega
+          rw [e] at this; exact this
+        · simp only [h3, if_false] at h
+          cases h
+
+/-- `..` counted by `esc` beyond those that `skn` resolves -/
+theorem esc_of_skn_cons : ∀ (cs : List Str) (m j : Nat) (c : Str) (r : List Str),
+    skn m cs = c :: r → esc (m + j + 1) cs = esc j r := by
+  intro cs
+  induction cs with
+  | nil => intro m j c r h; simp [skn] at h
+  | cons x xs ih =>
+    intro m j c r h
+    simp only [skn] at h
+    simp only [esc]
+    by_cases h1 : ignorable x = true
+    · simp only [h1, if_true] at h ⊢; exact ih m j c r h
+    · simp only [h1, Bool.false_eq_true, if_false] at h ⊢
+      by_cases h2 : (x == dotdot) = true
+      · simp only [h2, if_true] at h ⊢
+        have := ih (m + 1) j c r h
+        have e : m + 1 + j + 1 = m + j + 1 + 1 := by omega
+        rw [e] at this; exact this
+      · simp only [h2, Bool.false_eq_true, if_false] at h ⊢
+        by_cases h3 : m > 0
+        · simp only [h3, if_true] at h
+          have := ih (m - 1) j c r h
+          have e : m - 1 + j + 1 = m + j + 1 - 1 := by omega
+          rw [e] at this; exact this
+        · simp only [h3, if_false] at h
+          have hm : m = 0 := by omega
+          subst hm
+          have := List.cons.inj h
+          rw [this.2]
+          simp
+
+theorem esc_of_skn_nil : ∀ (cs : List Str) (m j : Nat), skn m cs = [] → j ≤ esc (m + j) cs := by
+  intro cs
+  induction cs with
+  | nil => intro m j _; simp [esc]
+  | cons x xs ih =>
+    intro m j h
+    simp only [skn] at h
+    simp only [esc]
+    by_cases h1 : ignorable x = true
+    · simp only [h1, if_true] at h ⊢; exact ih m j h
+    · simp only [h1, Bool.false_eq_true, if_false] at h ⊢
+      by_cases h2 : (x == dotdot) = true
+      · simp only [h2, if_true] at h ⊢
+        have := ih (m + 1) j h
+        have e : m + 1 + j = m + j + 1 := by omega
+        rw [e] at this; exact this
+      · simp only [h2, Bool.false_eq_true, if_false] at h ⊢
+        by_cases h3 : m > 0
+        · simp only [h3, if_true] at h
+          have := ih (m - 1) j h
+          have e : m - 1 + j = m + j - 1 := by omega
+          rw [e] at this; exact this
+        · simp only [h3, if_false] at h
+          cases h
+
+theorem esc_mono : ∀ (cs : List Str) (a b : Nat), a ≤ b → esc a cs ≤ esc b cs := by
+  intro cs
+  induction cs with
+  | nil => intro a b h; simpa [esc] using h
+  | cons x xs ih =>
+    intro a b h
+    simp only [esc]
+    split
+    · exact ih a b h
+    · split
+      · exact ih _ _ (by omega)
+      · exact ih _ _ (by omega)
+
+theorem rnorm_eq_skn : ∀ (cs : List Str) (n : Nat),
+    rnorm n cs = match skn n cs with | [] => [] | c :: r => c :: rnorm 0 r := by
+  intro cs
+  induction cs with
+  | nil => intro n; simp [rnorm, skn]
+  | cons x xs ih =>
+    intro n
+    simp only [rnorm, skn]
+    split
+    · exact ih n
+    · split
+      · exact ih (n + 1)
+      · split
+        · exact ih (n - 1)
+        · rfl
+
+
+/-! ### one loop iteration on the shapes a component boundary can have (repaired code) -/
+
+theorem body_short (v : Variant) (root : Nat) (ls : Bool) (rem : Str) (rec : Bool → Str → Str)
+    (h : rem.length ≤ root) : skipsBody v root ls rem rec = rem := by
+  simp [skipsBody, h]
+
+theorem bodyF_slash (root : Nat) (z : Str) (rec : Bool → Str → Str) (h : root < ('/' :: z).length) :
+    skipsBody .fixed root false ('/' :: z) rec = rec false z := by
+  simp only [List.length_cons] at h
+  simp [skipsBody, hd, Variant.fixed]
+  intro hh; omega
+
+theorem bodyF_dot_slash (root : Nat) (z : Str) (rec : Bool → Str → Str) (h : root < ('.' :: '/' :: z).length) :
+    skipsBody .fixed root false ('.' :: '/' :: z) rec = rec false ('/' :: z) := by
+  simp only [List.length_cons] at h
+  simp [skipsBody, hd]
+  intro hh; omega
+
+theorem bodyF_dot_end (rec : Bool → Str → Str) : skipsBody .fixed 0 false ['.'] rec = [] := by
+  simp [skipsBody, hd, NUL]
+
+theorem bodyF_dd_slash (root : Nat) (z : Str) (rec : Bool → Str → Str) (h : root < ('/' :: z).length) :
+    skipsBody .fixed root false ('.' :: '.' :: '/' :: z) rec = rec false (dropComp root (rec false z)) := by
+  simp only [List.length_cons] at h
+  have h2 : ¬ (z.length + 1 ≤ root) := by omega
+  simp [skipsBody, hd, Variant.fixed, h2]
+  intro hh; omega
+
+theorem bodyF_dd_root (root : Nat) (z : Str) (rec : Bool → Str → Str) (h : ('/' :: z).length = root) :
+    skipsBody .fixed root false ('.' :: '.' :: '/' :: z) rec = rec false (dropComp root (rec false ('/' :: z))) := by
+  simp only [List.length_cons] at h
+  have h2 : z.length + 1 ≤ root := by omega
+  simp [skipsBody, hd, Variant.fixed, h2]
+  intro hh; omega
+
+theorem bodyF_dot_root (root : Nat) (z : Str) (rec : Bool → Str → Str) (h : ('/' :: z).length = root) :
+    skipsBody .fixed root false ('.' :: '/' :: z) rec = rec false ('/' :: z) := by
+  simp only [List.length_cons] at h
+  simp [skipsBody, hd]
+  intro hh; omega
+
+
+/-- a real component: non-empty, without separator or NUL, not `.` and not `..` -/
+def normalC (c : Str) : Prop := c ≠ [] ∧ '/' ∉ c ∧ NUL ∉ c ∧ c ≠ dot ∧ c ≠ dotdot
+
+theorem bodyF_normal (root : Nat) (c rest : Str) (rec : Bool → Str → Str) (hn : normalC c)
+    (hlen : root < (c ++ rest).length) : skipsBody .fixed root false (c ++ rest) rec = c ++ rest := by
+  obtain ⟨h0, hs, hz, hd1, hd2⟩ := hn
+  have hl : ¬ ((c ++ rest).length ≤ root) := by omega
+  cases c with
+  | nil => exact absurd rfl h0
+  | cons d c' =>
+    have d1 : d ≠ '/' := fun e => hs (by simp [e])
+    have d2 : d ≠ NUL := fun e => hz (by simp [e])
+    by_cases hdot : d = '.'
+    · subst hdot
+      cases c' with
+      | nil => exact absurd rfl hd1
+      | cons e c'' =>
+        have e1 : e ≠ '/' := fun h => hs (by simp [h])
+        have e2 : e ≠ NUL := fun h => hz (by simp [h])
+        by_cases hdot2 : e = '.'
+        · subst hdot2
+          cases c'' with
+          | nil => exact absurd rfl hd2
+          | cons g c3 =>
+            have g1 : g ≠ '/' := fun h => hs (by simp [h])
+            simp only [skipsBody, hl, if_false]
+            simp [hd, g1]
+        · simp only [skipsBody, hl, if_false]
+          simp [hd, hdot2, e1, e2]
+    · simp only [skipsBody, hl, if_false]
+      simp [hd, hdot, d1]
+
+theorem dropComp_short (root : Nat) (r : Str) (h : r.length ≤ root) : dropComp root r = r := by
+  cases r with
+  | nil => rfl
+  | cons c r =>
+    simp only [List.length_cons] at h
+    simp [dropComp]
+    intro hh; omega
+
+theorem dropComp_slash (root : Nat) (r : Str) : dropComp root ('/' :: r) = '/' :: r := by
+  simp [dropComp]
+
+/-- dropping one component: the characters of `c`, up to the separator / the root that follows -/
+theorem dropComp_comp (root : Nat) (c rest : Str) (hs : '/' ∉ c) (hroot : root ≤ rest.length)
+    (hrest : rest.length ≤ root ∨ hd rest = '/') : dropComp root (c ++ rest) = rest := by
+  induction c with
+  | nil =>
+    simp only [List.nil_append]
+    rcases hrest with h | h
+    · exact dropComp_short root rest h
+    · cases rest with
+      | nil => rfl
+      | cons d r =>
+        have : d = '/' := by simpa [hd] using h
+        subst this; exact dropComp_slash root r
+  | cons d c ih =>
+    have d1 : d ≠ '/' := fun e => hs (by simp [e])
+    have : (d :: (c ++ rest)).length > root := by simp; omega
+    simp only [List.cons_append, dropComp, this, decide_true, Bool.true_and, bne_iff_ne, ne_eq, d1, not_false_eq_true, if_true]
+    exact ih (fun h => hs (by simp [h]))
+
+
+/-! ### components -/
+
+theorem joinSlash_cons_cons (a b : Str) (r : List Str) : joinSlash (a :: b :: r) = a ++ '/' :: joinSlash (b :: r) := rfl
+
+theorem joinSlash_single (a : Str) : joinSlash [a] = a := rfl
+
+theorem joinSlash_suffix_length (l : List Str) : ∀ pre : List Str, (joinSlash l).length ≤ (joinSlash (pre ++ l)).length := by
+  intro pre
+  induction pre with
+  | nil => simp
+  | cons a pre ih =>
+    cases hp : pre ++ l with
+    | nil =>
+      have : l = [] := by
+        cases pre <;> simp_all
+      subst this; simp [joinSlash]
+    | cons b r =>
+      rw [hp] at ih
+      simp only [List.cons_append, hp, joinSlash_cons_cons, List.length_append, List.length_cons]
+      omega
+
+theorem skn_head : ∀ (cs : List Str) (m : Nat) (c : Str) (r : List Str),
+    skn m cs = c :: r → ignorable c = false ∧ (c == dotdot) = false := by
+  intro cs
+  induction cs with
+  | nil => intro m c r h; simp [skn] at h
+  | cons x xs ih =>
+    intro m c r h
+    simp only [skn] at h
+    by_cases h1 : ignorable x = true
+    · simp only [h1, if_true] at h; exact ih m c r h
+    · simp only [h1, Bool.false_eq_true, if_false] at h
+      by_cases h2 : (x == dotdot) = true
+      · simp only [h2, if_true] at h; exact ih _ c r h
+      · simp only [h2, Bool.false_eq_true, if_false] at h
+        by_cases h3 : m > 0
+        · simp only [h3, if_true] at h; exact ih _ c r h
+        · simp only [h3, if_false] at h
+          have := (List.cons.inj h).1
+          subst this
+          exact ⟨by simpa using h1, by simpa using h2⟩
+
+def compsOk (cs : List Str) : Prop := ∀ c ∈ cs, '/' ∉ c ∧ NUL ∉ c
+
+theorem normalC_of (c : Str) (h1 : ignorable c = false) (h2 : (c == dotdot) = false) (h3 : '/' ∉ c ∧ NUL ∉ c) :
+    normalC c := by
+  simp only [ignorable, Bool.or_eq_false_iff, beq_eq_false_iff_ne, ne_eq] at h1
+  refine ⟨h1.1, h3.1, h3.2, h1.2, ?_⟩
+  simpa using h2
+
+/-- where the iterator stands: at the start of the first surviving component, or on the root -/
+def pos (R : Str) (l : List Str) : Str :=
+  match l with
+  | [] => R
+  | _ => joinSlash l ++ R
+
+theorem skips_short (v : Variant) (root : Nat) (ls : Bool) (rem : Str) (h : rem.length ≤ root) :
+    skips v root ls rem = rem := by
+  rw [skips_eq, body_short v root ls rem _ h]
+
+
+theorem skn_nil_cons (n : Nat) (cs : List Str) : skn n ([] :: cs) = skn n cs := by simp [skn, ignorable]
+theorem skn_dot_cons (n : Nat) (cs : List Str) : skn n (dot :: cs) = skn n cs := by simp [skn, ignorable]
+theorem skn_dd_cons (n : Nat) (cs : List Str) : skn n (dotdot :: cs) = skn (n + 1) cs := by
+  simp [skn, ignorable, dotdot, dot]
+theorem esc_nil_cons (n : Nat) (cs : List Str) : esc n ([] :: cs) = esc n cs := by simp [esc, ignorable]
+theorem esc_dot_cons (n : Nat) (cs : List Str) : esc n (dot :: cs) = esc n cs := by simp [esc, ignorable]
+theorem esc_dd_cons (n : Nat) (cs : List Str) : esc n (dotdot :: cs) = esc (n + 1) cs := by
+  simp [esc, ignorable, dotdot, dot]
+
+theorem compsOk_tail {c : Str} {cs : List Str} (h : compsOk (c :: cs)) : compsOk cs :=
+  fun x hx => h x (by simp [hx])
+
+theorem compsOk_suffix {pre l : List Str} (h : compsOk (pre ++ l)) : compsOk l :=
+  fun x hx => h x (by simp [hx])
+
+theorem joinSlash_eq_nil {cs : List Str} (hne : cs ≠ []) (h : joinSlash cs = []) : cs = [[]] := by
+  cases cs with
+  | nil => exact absurd rfl hne
+  | cons a r =>
+    cases r with
+    | nil => simp [joinSlash] at h; simp [h]
+    | cons b r => simp [joinSlash_cons_cons] at h
+
+/-- **the repaired `skips(false)` at a component boundary** leaves the iterator on the first surviving component -/
+theorem skips_false_comps (R : Str) (hR : R = [] ∨ ∃ R', R = '/' :: R') :
+    ∀ (N : Nat) (cs : List Str), cs ≠ [] → compsOk cs → (joinSlash cs).length ≤ N →
+      (R ≠ [] ∨ esc 0 cs = 0) →
+      skips .fixed R.length false (joinSlash cs ++ R) = pos R (skn 0 cs) := by
+  intro N
+  induction N with
+  | zero =>
+    intro cs hne _ hl _
+    have : joinSlash cs = [] := List.eq_nil_of_length_eq_zero (by omega)
+    have := joinSlash_eq_nil hne this
+    subst this
+    simp [joinSlash, skn, ignorable, pos, skips_short]
+  | succ N ih =>
+    intro cs hne hok hl hH
+    have hRs : skips .fixed R.length false R = R := skips_short _ _ _ _ (Nat.le_refl _)
+    cases cs with
+    | nil => exact absurd rfl hne
+    | cons c cs1 =>
+      have hok1 := compsOk_tail hok
+      by_cases hc0 : c = []
+      · subst hc0
+        cases cs1 with
+        | nil => simp [joinSlash, skn, ignorable, pos, hRs]
+        | cons b r1 =>
+          have e : joinSlash ([] :: b :: r1) ++ R = '/' :: (joinSlash (b :: r1) ++ R) := by simp [joinSlash_cons_cons]
+          rw [e, skips_eq, bodyF_slash _ _ _ (by simp; omega)]
+          have hl' : (joinSlash (b :: r1)).length ≤ N := by
+            simp only [joinSlash_cons_cons, List.nil_append, List.length_cons] at hl; omega
+          rw [ih (b :: r1) (by simp) hok1 hl' (by rw [esc_nil_cons] at hH; exact hH), skn_nil_cons]
+      · by_cases hcd : c = dot
+        · subst hcd
+          cases cs1 with
+          | nil =>
+            rcases hR with hR | ⟨R', hR⟩
+            · subst hR
+              simp only [joinSlash_single, List.append_nil, List.length_nil]
+              rw [skips_eq]
+              simp [dot, bodyF_dot_end, skn, ignorable, pos]
+            · subst hR
+              simp only [joinSlash_single]
+              rw [skips_eq]
+              simp only [dot, List.singleton_append]
+              rw [bodyF_dot_root _ _ _ rfl, hRs]
+              simp [skn, ignorable, pos, dot]
+          | cons b r1 =>
+            have e : joinSlash (dot :: b :: r1) ++ R = '.' :: '/' :: (joinSlash (b :: r1) ++ R) := by
+              simp [joinSlash_cons_cons, dot]
+            rw [e, skips_eq, bodyF_dot_slash _ _ _ (by simp; omega)]
+            have e2 : '/' :: (joinSlash (b :: r1) ++ R) = joinSlash ([] :: b :: r1) ++ R := by simp [joinSlash_cons_cons]
+            have hl' : (joinSlash ([] :: b :: r1)).length ≤ N := by
+              simp only [joinSlash_cons_cons, dot, List.nil_append, List.length_cons, List.length_append, List.length_nil] at hl ⊢
+              omega
+            have hok' : compsOk ([] :: b :: r1) := by
+              intro x hx
+              simp only [List.mem_cons] at hx
+              rcases hx with rfl | hx
+              · simp
+              · exact hok1 x (by simpa using hx)
+            rw [e2, ih ([] :: b :: r1) (by simp) hok' hl' (by rw [esc_dot_cons] at hH; rw [esc_nil_cons]; exact hH),
+              skn_nil_cons, skn_dot_cons]
+        · by_cases hcdd : c = dotdot
+          · subst hcdd
+            cases cs1 with
+            | nil =>
+              rcases hR with hR | ⟨R', hR⟩
+              · subst hR
+                simp [esc, ignorable, dotdot, dot] at hH
+              · subst hR
+                simp only [joinSlash_single, dotdot, List.cons_append, List.nil_append]
+                rw [skips_eq, bodyF_dd_root _ _ _ rfl, hRs, dropComp_short _ _ (Nat.le_refl _), hRs]
+                simp [skn, ignorable, pos, dotdot, dot]
+            | cons b r1 =>
+              have e : joinSlash (dotdot :: b :: r1) ++ R = '.' :: '.' :: '/' :: (joinSlash (b :: r1) ++ R) := by
+                simp [joinSlash_cons_cons, dotdot]
+              rw [e, skips_eq, bodyF_dd_slash _ _ _ (by simp; omega)]
+              have hl1 : (joinSlash (b :: r1)).length + 3 ≤ N + 1 := by
+                simp only [joinSlash_cons_cons, dotdot, List.cons_append, List.nil_append, List.length_cons] at hl ⊢
+                omega
+              have hH1 : R ≠ [] ∨ esc 0 (b :: r1) = 0 := by
+                rcases hH with h | h
+                · exact Or.inl h
+                · right
+                  have h' : esc 1 (b :: r1) = 0 := by rw [esc_dd_cons] at h; exact h
+                  have := esc_mono (b :: r1) 0 1 (by omega)
+                  omega
+              rw [ih (b :: r1) (by simp) hok1 (by omega) hH1]
+              have hsk : skn 0 (dotdot :: b :: r1) = skn 1 (b :: r1) := skn_dd_cons 0 _
+              rw [hsk]
+              cases hs : skn 0 (b :: r1) with
+              | nil =>
+                rw [skn_succ_of_nil _ _ hs]
+                simp [pos, dropComp_short _ _ (Nat.le_refl _), hRs]
+              | cons c2 r =>
+                rw [skn_succ_of_cons _ _ _ _ hs]
+                obtain ⟨pre, hpre⟩ := skn_suffix (b :: r1) 0
+                rw [hs] at hpre
+                have hokS : compsOk (c2 :: r) := by
+                  have := hok1; rw [hpre] at this; exact compsOk_suffix this
+                have hn2 := skn_head _ _ _ _ hs
+                have hnorm := normalC_of c2 hn2.1 hn2.2 (hokS c2 (by simp))
+                cases r with
+                | nil =>
+                  simp only [pos, joinSlash_single]
+                  rw [dropComp_comp _ c2 R hnorm.2.1 (Nat.le_refl _) (Or.inl (Nat.le_refl _)), hRs]
+                  simp [skn]
+                | cons b2 r2 =>
+                  simp only [pos, joinSlash_cons_cons, List.append_assoc, List.cons_append]
+                  rw [dropComp_comp _ c2 _ hnorm.2.1 (by simp; omega) (Or.inr rfl)]
+                  have e2 : '/' :: (joinSlash (b2 :: r2) ++ R) = joinSlash ([] :: b2 :: r2) ++ R := by simp [joinSlash_cons_cons]
+                  have hlen2 : (joinSlash (b2 :: r2)).length ≤ (joinSlash (b :: r1)).length := by
+                    have h1 := joinSlash_suffix_length (b2 :: r2) (pre ++ [c2])
+                    have : pre ++ [c2] ++ b2 :: r2 = b :: r1 := by rw [hpre]; simp
+                    rw [this] at h1; exact h1
+                  have hok' : compsOk ([] :: b2 :: r2) := by
+                    intro x hx
+                    simp only [List.mem_cons] at hx
+                    rcases hx with rfl | hx
+                    · simp
+                    · exact hokS x (by simp only [List.mem_cons]; right; exact hx)
+                  have hH2 : R ≠ [] ∨ esc 0 ([] :: b2 :: r2) = 0 := by
+                    rcases hH with h | h
+                    · exact Or.inl h
+                    · right
+                      have h' : esc 1 (b :: r1) = 0 := by rw [esc_dd_cons] at h; exact h
+                      have := esc_of_skn_cons (b :: r1) 0 0 c2 (b2 :: r2) hs
+                      simp only [Nat.zero_add] at this
+                      rw [esc_nil_cons]
+                      omega
+                  have hl2 : (joinSlash ([] :: b2 :: r2)).length ≤ N := by
+                    rw [joinSlash_cons_cons]; simp only [List.nil_append, List.length_cons]; omega
+                  rw [e2, ih ([] :: b2 :: r2) (by simp) hok' hl2 hH2, skn_nil_cons]
+                  rfl
+          · -- a real component: the position is restored
+            have hnorm : normalC c := by
+              refine ⟨hc0, (hok c (by simp)).1, (hok c (by simp)).2, hcd, hcdd⟩
+            have hsk : skn 0 (c :: cs1) = c :: cs1 := by
+              have h1 : ignorable c = false := by simp [ignorable, hc0, hcd]
+              have h2 : (c == dotdot) = false := by simp [hcdd]
+              simp [skn, h1, h2]
+            rw [hsk]
+            simp only [pos]
+            cases cs1 with
+            | nil =>
+              simp only [joinSlash_single]
+              rw [skips_eq, bodyF_normal _ c R _ hnorm (by
+                have : c.length > 0 := List.length_pos_iff.mpr hc0
+                simp; omega)]
+            | cons b r1 =>
+              simp only [joinSlash_cons_cons, List.append_assoc, List.cons_append]
+              rw [skips_eq, bodyF_normal _ c _ _ hnorm (by
+                have : c.length > 0 := List.length_pos_iff.mpr hc0
+                simp; omega)]
+
+/-! ### `skips(true)`: the iterator stands on a separator -/
+
+theorem bodyT_slash (root : Nat) (z : Str) (rec : Bool → Str → Str) (h : root < ('/' :: '/' :: z).length) :
+    skipsBody .fixed root true ('/' :: '/' :: z) rec = rec true ('/' :: z) := by
+  simp only [List.length_cons] at h
+  simp [skipsBody, hd, Variant.fixed]
+  intro hh; omega
+
+theorem bodyT_dot_slash (root : Nat) (z : Str) (rec : Bool → Str → Str) (h : root < ('/' :: '.' :: '/' :: z).length) :
+    skipsBody .fixed root true ('/' :: '.' :: '/' :: z) rec = rec true ('/' :: z) := by
+  simp only [List.length_cons] at h
+  simp [skipsBody, hd]
+  intro hh; omega
+
+theorem bodyT_dot_end (rec : Bool → Str → Str) : skipsBody .fixed 0 true ['/', '.'] rec = [] := by
+  simp [skipsBody, hd, NUL]
+
+theorem bodyT_dd_slash (root : Nat) (z : Str) (rec : Bool → Str → Str) (h : root < ('/' :: z).length) :
+    skipsBody .fixed root true ('/' :: '.' :: '.' :: '/' :: z) rec = rec true (dropComp root (rec false z)) := by
+  simp only [List.length_cons] at h
+  have h2 : ¬ (z.length + 1 ≤ root) := by omega
+  simp [skipsBody, hd, Variant.fixed, h2]
+  intro hh; omega
+
+theorem bodyT_dd_root (root : Nat) (z : Str) (rec : Bool → Str → Str) (h : ('/' :: z).length = root) :
+    skipsBody .fixed root true ('/' :: '.' :: '.' :: '/' :: z) rec = rec true (dropComp root (rec false ('/' :: z))) := by
+  simp only [List.length_cons] at h
+  have h2 : z.length + 1 ≤ root := by omega
+  simp [skipsBody, hd, Variant.fixed, h2]
+  intro hh; omega
+
+theorem bodyT_normal (root : Nat) (c rest : Str) (rec : Bool → Str → Str) (hn : normalC c)
+    (hlen : root < (c ++ rest).length) : skipsBody .fixed root true ('/' :: (c ++ rest)) rec = '/' :: (c ++ rest) := by
+  obtain ⟨h0, hs, hz, hd1, hd2⟩ := hn
+  have hl : ¬ (('/' :: (c ++ rest)).length ≤ root) := by simp only [List.length_cons]; omega
+  cases c with
+  | nil => exact absurd rfl h0
+  | cons d c' =>
+    have d1 : d ≠ '/' := fun e => hs (by simp [e])
+    have d2 : d ≠ NUL := fun e => hz (by simp [e])
+    by_cases hdot : d = '.'
+    · subst hdot
+      cases c' with
+      | nil => exact absurd rfl hd1
+      | cons e c'' =>
+        have e1 : e ≠ '/' := fun h => hs (by simp [h])
+        have e2 : e ≠ NUL := fun h => hz (by simp [h])
+        by_cases hdot2 : e = '.'
+        · subst hdot2
+          cases c'' with
+          | nil => exact absurd rfl hd2
+          | cons g c3 =>
+            have g1 : g ≠ '/' := fun h => hs (by simp [h])
+            simp only [skipsBody, hl, if_false]
+            simp [hd, g1]
+        · simp only [skipsBody, hl, if_false]
+          simp [hd, hdot2, e1, e2]
+    · simp only [skipsBody, hl, if_false]
+      simp [hd, hdot, d1]
+
+/-- where the iterator stands after `skips(true)`: on the separator in front of the first surviving component, or
+    on the root -/
+def posS (R : Str) (l : List Str) : Str :=
+  match l with
+  | [] => R
+  | _ => '/' :: (joinSlash l ++ R)
+
+
+theorem getLast?_suffix_ne {pre l : List Str} (hl : l ≠ []) : (pre ++ l).getLast? = l.getLast? := by
+  simp [List.getLast?_append, hl]
+  cases h : l.getLast? with
+  | none => simp [List.getLast?_eq_none_iff] at h; exact absurd h hl
+  | some x => simp
+
+/-- **the repaired `skips(true)` on a separator** leaves the iterator on the separator in front of the first
+    surviving component (or on the root) -/
+theorem skips_true_comps (R : Str) (hR : R = [] ∨ ∃ R', R = '/' :: R') :
+    ∀ (N : Nat) (cs : List Str), cs ≠ [] → compsOk cs → (joinSlash cs).length ≤ N →
+      (R ≠ [] ∨ (esc 0 cs = 0 ∧ cs.getLast? ≠ some [])) →
+      skips .fixed R.length true ('/' :: (joinSlash cs ++ R)) = posS R (skn 0 cs) := by
+  intro N
+  induction N with
+  | zero =>
+    intro cs hne _ hl hH
+    have : joinSlash cs = [] := List.eq_nil_of_length_eq_zero (by omega)
+    have := joinSlash_eq_nil hne this
+    subst this
+    rcases hR with hR | ⟨R', hR⟩
+    · subst hR
+      rcases hH with h | h
+      · exact absurd rfl h
+      · simp at h
+    · subst hR
+      simp only [joinSlash_single, List.nil_append]
+      rw [skips_eq, bodyT_slash _ _ _ (by simp), skips_short _ _ _ _ (Nat.le_refl _), skn_nil_cons]
+      rfl
+  | succ N ih =>
+    intro cs hne hok hl hH
+    have hRs : ∀ ls, skips .fixed R.length ls R = R := fun ls => skips_short _ _ _ _ (Nat.le_refl _)
+    cases cs with
+    | nil => exact absurd rfl hne
+    | cons c cs1 =>
+      have hok1 := compsOk_tail hok
+      have hH1 : ∀ (b : Str) (r1 : List Str), cs1 = b :: r1 → (esc 0 (c :: cs1) = esc 0 cs1) →
+          (R ≠ [] ∨ (esc 0 cs1 = 0 ∧ cs1.getLast? ≠ some [])) := by
+        intro b r1 e he
+        rcases hH with h | h
+        · exact Or.inl h
+        · right
+          refine ⟨by rw [← he]; exact h.1, ?_⟩
+          have := h.2
+          rw [e] at this ⊢
+          simpa using this
+      by_cases hc0 : c = []
+      · subst hc0
+        cases cs1 with
+        | nil =>
+          rcases hR with hR | ⟨R', hR⟩
+          · subst hR
+            rcases hH with h | h
+            · exact absurd rfl h
+            · simp at h
+          · subst hR
+            simp only [joinSlash_single, List.nil_append]
+            rw [skips_eq, bodyT_slash _ _ _ (by simp), hRs, skn_nil_cons]
+            rfl
+        | cons b r1 =>
+          have e : '/' :: (joinSlash ([] :: b :: r1) ++ R) = '/' :: '/' :: (joinSlash (b :: r1) ++ R) := by
+            simp [joinSlash_cons_cons]
+          rw [e, skips_eq, bodyT_slash _ _ _ (by simp; omega)]
+          have hl' : (joinSlash (b :: r1)).length ≤ N := by
+            simp only [joinSlash_cons_cons, List.nil_append, List.length_cons] at hl; omega
+          rw [ih (b :: r1) (by simp) hok1 hl' (hH1 b r1 rfl (esc_nil_cons 0 _)), skn_nil_cons]
+      · by_cases hcd : c = dot
+        · subst hcd
+          cases cs1 with
+          | nil =>
+            have hsk : skn 0 [dot] = [] := by rw [skn_dot_cons]; rfl
+            rw [hsk]
+            rcases hR with hR | ⟨R', hR⟩
+            · subst hR
+              simp only [joinSlash_single, List.append_nil, List.length_nil, dot]
+              rw [skips_eq, bodyT_dot_end]
+              rfl
+            · subst hR
+              simp only [joinSlash_single, dot, List.singleton_append]
+              rw [skips_eq, bodyT_dot_slash _ _ _ (by simp), hRs]
+              rfl
+          | cons b r1 =>
+            have e : '/' :: (joinSlash (dot :: b :: r1) ++ R) = '/' :: '.' :: '/' :: (joinSlash (b :: r1) ++ R) := by
+              simp [joinSlash_cons_cons, dot]
+            rw [e, skips_eq, bodyT_dot_slash _ _ _ (by simp; omega)]
+            have hl' : (joinSlash (b :: r1)).length ≤ N := by
+              simp only [joinSlash_cons_cons, dot, List.cons_append, List.nil_append, List.length_cons] at hl; omega
+            rw [ih (b :: r1) (by simp) hok1 hl' (hH1 b r1 rfl (esc_dot_cons 0 _)), skn_dot_cons]
+        · by_cases hcdd : c = dotdot
+          · subst hcdd
+            cases cs1 with
+            | nil =>
+              rcases hR with hR | ⟨R', hR⟩
+              · subst hR
+                rcases hH with h | h
+                · exact absurd rfl h
+                · simp [esc, ignorable, dotdot, dot] at h
+              · subst hR
+                have hsk : skn 0 [dotdot] = [] := by rw [skn_dd_cons]; rfl
+                rw [hsk]
+                simp only [joinSlash_single, dotdot, List.cons_append, List.nil_append]
+                rw [skips_eq, bodyT_dd_root _ _ _ rfl, hRs, dropComp_short _ _ (Nat.le_refl _), hRs]
+                rfl
+            | cons b r1 =>
+              have e : '/' :: (joinSlash (dotdot :: b :: r1) ++ R) = '/' :: '.' :: '.' :: '/' :: (joinSlash (b :: r1) ++ R) := by
+                simp [joinSlash_cons_cons, dotdot]
+              rw [e, skips_eq, bodyT_dd_slash _ _ _ (by simp; omega)]
+              have hl1 : (joinSlash (b :: r1)).length + 3 ≤ N + 1 := by
+                simp only [joinSlash_cons_cons, dotdot, List.cons_append, List.nil_append, List.length_cons] at hl ⊢
+                omega
+              have hF1 : R ≠ [] ∨ esc 0 (b :: r1) = 0 := by
+                rcases hH with h | h
+                · exact Or.inl h
+                · right
+                  have h' : esc 1 (b :: r1) = 0 := by have := h.1; rw [esc_dd_cons] at this; exact this
+                  have := esc_mono (b :: r1) 0 1 (by omega)
+                  omega
+              rw [skips_false_comps R hR _ (b :: r1) (by simp) hok1 (Nat.le_refl _) hF1]
+              rw [skn_dd_cons]
+              cases hs : skn 0 (b :: r1) with
+              | nil =>
+                rw [skn_succ_of_nil _ _ hs]
+                simp [pos, posS, dropComp_short _ _ (Nat.le_refl _), hRs]
+              | cons c2 r =>
+                rw [skn_succ_of_cons _ _ _ _ hs]
+                obtain ⟨pre, hpre⟩ := skn_suffix (b :: r1) 0
+                rw [hs] at hpre
+                have hokS : compsOk (c2 :: r) := by
+                  have := hok1; rw [hpre] at this; exact compsOk_suffix this
+                have hn2 := skn_head _ _ _ _ hs
+                have hnorm := normalC_of c2 hn2.1 hn2.2 (hokS c2 (by simp))
+                cases r with
+                | nil =>
+                  simp only [pos, joinSlash_single]
+                  rw [dropComp_comp _ c2 R hnorm.2.1 (Nat.le_refl _) (Or.inl (Nat.le_refl _)), hRs]
+                  simp [skn, posS]
+                | cons b2 r2 =>
+                  simp only [pos, joinSlash_cons_cons, List.append_assoc, List.cons_append]
+                  rw [dropComp_comp _ c2 _ hnorm.2.1 (by simp; omega) (Or.inr rfl)]
+                  have hlen2 : (joinSlash (b2 :: r2)).length ≤ (joinSlash (b :: r1)).length := by
+                    have h1 := joinSlash_suffix_length (b2 :: r2) (pre ++ [c2])
+                    have : pre ++ [c2] ++ b2 :: r2 = b :: r1 := by rw [hpre]; simp
+                    rw [this] at h1; exact h1
+                  have hH2 : R ≠ [] ∨ (esc 0 (b2 :: r2) = 0 ∧ (b2 :: r2).getLast? ≠ some []) := by
+                    rcases hH with h | h
+                    · exact Or.inl h
+                    · right
+                      have h' : esc 1 (b :: r1) = 0 := by have := h.1; rw [esc_dd_cons] at this; exact this
+                      have := esc_of_skn_cons (b :: r1) 0 0 c2 (b2 :: r2) hs
+                      simp only [Nat.zero_add] at this
+                      refine ⟨by omega, ?_⟩
+                      have hl := h.2
+                      have e3 : dotdot :: b :: r1 = (dotdot :: pre ++ [c2]) ++ (b2 :: r2) := by rw [hpre]; simp
+                      rw [e3, getLast?_suffix_ne (by simp)] at hl
+                      exact hl
+                  rw [ih (b2 :: r2) (by simp) (compsOk_tail hokS) (by omega) hH2]
+          · -- a real component: the position is restored
+            have hnorm : normalC c := by
+              refine ⟨hc0, (hok c (by simp)).1, (hok c (by simp)).2, hcd, hcdd⟩
+            have hsk : skn 0 (c :: cs1) = c :: cs1 := by
+              have h1 : ignorable c = false := by simp [ignorable, hc0, hcd]
+              have h2 : (c == dotdot) = false := by simp [hcdd]
+              simp [skn, h1, h2]
+            rw [hsk]
+            simp only [posS]
+            cases cs1 with
+            | nil =>
+              simp only [joinSlash_single]
+              rw [skips_eq, bodyT_normal _ c R _ hnorm (by
+                have : c.length > 0 := List.length_pos_iff.mpr hc0
+                simp; omega)]
+            | cons b r1 =>
+              simp only [joinSlash_cons_cons, List.append_assoc, List.cons_append]
+              rw [skips_eq, bodyT_normal _ c _ _ hnorm (by
+                have : c.length > 0 := List.length_pos_iff.mpr hc0
+                simp; omega)]
+
+/-! ### reading from a component boundary -/
+
+theorem hd_append_of_ne_nil {w rest : Str} (h : w ≠ []) : hd (w ++ rest) = hd w := by
+  cases w with
+  | nil => exact absurd rfl h
+  | cons c w => rfl
+
+/-- reading the root part: no canonicalisation happens any more -/
+theorem readFrom_short (root : Nat) : ∀ (r : Str), r.length ≤ root → NUL ∉ r → readFrom .fixed root r = r := by
+  intro r
+  induction r with
+  | nil => intro _ _; rw [readFrom_eq]; simp [hd]
+  | cons c r ih =>
+    intro hl hn
+    have hc : c ≠ NUL := fun e => hn (by simp [e])
+    have hl' : r.length ≤ root := by simp at hl; omega
+    rw [readFrom_eq]
+    have hcb : (c == NUL) = false := by simp [hc]
+    simp only [hd, List.headD_cons, hcb, Bool.false_eq_true, if_false]
+    congr 1
+    unfold advance
+    simp only [List.tail_cons]
+    have hr := ih hl' (fun h => hn (by simp [h]))
+    by_cases hsl : (hd r == '/') = true
+    · simp only [hsl, if_true]; rw [skips_short _ _ _ _ hl']; exact hr
+    · simp only [hsl, Bool.false_eq_true, if_false]; exact hr
+
+/-- reading the characters of one component -/
+theorem readFrom_comp (root : Nat) : ∀ (w rest : Str), w ≠ [] → '/' ∉ w → NUL ∉ w →
+    readFrom .fixed root (w ++ rest) =
+      w ++ readFrom .fixed root (if hd rest == '/' then skips .fixed root true rest else rest) := by
+  intro w
+  induction w with
+  | nil => intro rest h; exact absurd rfl h
+  | cons c w ih =>
+    intro rest _ hs hn
+    have hc : c ≠ NUL := fun e => hn (by simp [e])
+    rw [readFrom_eq]
+    have hcb : (c == NUL) = false := by simp [hc]
+    simp only [List.cons_append, hd, List.headD_cons, hcb, Bool.false_eq_true, if_false]
+    congr 1
+    unfold advance
+    simp only [List.tail_cons]
+    cases w with
+    | nil => simp only [List.nil_append]; rfl
+    | cons d w' =>
+      have hd1 : d ≠ '/' := fun e => hs (by simp [e])
+      have : (hd (d :: w' ++ rest) == '/') = false := by simp [hd, hd1]
+      simp only [this, Bool.false_eq_true, if_false]
+      exact ih rest (by simp) (fun h => hs (List.mem_cons_of_mem _ h)) (fun h => hn (List.mem_cons_of_mem _ h))
+
+
+theorem esc_eq_of_skn_cons : ∀ (cs : List Str) (m : Nat) (c : Str) (r : List Str),
+    skn m cs = c :: r → esc m cs = esc 0 (c :: r) := by
+  intro cs
+  induction cs with
+  | nil => intro m c r h; simp [skn] at h
+  | cons x xs ih =>
+    intro m c r h
+    simp only [skn] at h
+    by_cases h1 : ignorable x = true
+    · simp only [h1, if_true] at h
+      have : esc m (x :: xs) = esc m xs := by simp [esc, h1]
+      rw [this]; exact ih m c r h
+    · simp only [h1, Bool.false_eq_true, if_false] at h
+      by_cases h2 : (x == dotdot) = true
+      · simp only [h2, if_true] at h
+        have : esc m (x :: xs) = esc (m + 1) xs := by simp [esc, h1, h2]
+        rw [this]; exact ih _ c r h
+      · simp only [h2, Bool.false_eq_true, if_false] at h
+        have e0 : esc m (x :: xs) = esc (m - 1) xs := by simp [esc, h1, h2]
+        by_cases h3 : m > 0
+        · simp only [h3, if_true] at h
+          rw [e0]; exact ih _ c r h
+        · simp only [h3, if_false] at h
+          have hm : m = 0 := by omega
+          subst hm
+          rw [← h]
+
+theorem esc_normal_cons (c : Str) (r : List Str) (h1 : ignorable c = false) (h2 : (c == dotdot) = false) (n : Nat) :
+    esc n (c :: r) = esc (n - 1) r := by simp [esc, h1, h2]
+
+theorem rnorm_normal_cons (c : Str) (r : List Str) (h1 : ignorable c = false) (h2 : (c == dotdot) = false) :
+    rnorm 0 (c :: r) = c :: rnorm 0 r := by simp [rnorm, h1, h2]
+
+theorem skn_normal_cons (c : Str) (r : List Str) (h1 : ignorable c = false) (h2 : (c == dotdot) = false) :
+    skn 0 (c :: r) = c :: r := by simp [skn, h1, h2]
+
+/-- the head of the list (if any) is a real component -/
+def headNormal (l : List Str) : Prop := ∀ c r, l = c :: r → ignorable c = false ∧ (c == dotdot) = false
+
+theorem headNormal_skn (m : Nat) (cs : List Str) : headNormal (skn m cs) :=
+  fun c r h => skn_head cs m c r h
+
+/-- **reading from the first surviving component**: the surviving components, separated by one separator, then the root -/
+theorem readFrom_pos (R : Str) (hR : R = [] ∨ ∃ R', R = '/' :: R') (hRn : NUL ∉ R) :
+    ∀ (N : Nat) (l : List Str), (joinSlash l).length ≤ N → headNormal l → compsOk l →
+      (R ≠ [] ∨ (esc 0 l = 0 ∧ l.getLast? ≠ some [])) →
+      readFrom .fixed R.length (pos R l) = joinSlash (rnorm 0 l) ++ R := by
+  intro N
+  induction N with
+  | zero =>
+    intro l hl hh hok _
+    cases l with
+    | nil => simp [pos, rnorm, joinSlash, readFrom_short _ R (Nat.le_refl _) hRn]
+    | cons c r =>
+      have hn := hh c r rfl
+      have hnorm := normalC_of c hn.1 hn.2 (hok c (by simp))
+      have : c.length > 0 := List.length_pos_iff.mpr hnorm.1
+      cases r with
+      | nil => simp only [joinSlash] at hl; omega
+      | cons b r' => simp [joinSlash_cons_cons] at hl
+  | succ N ih =>
+    intro l hl hh hok hH
+    cases l with
+    | nil => simp [pos, rnorm, joinSlash, readFrom_short _ R (Nat.le_refl _) hRn]
+    | cons c r =>
+      have hn := hh c r rfl
+      have hnorm := normalC_of c hn.1 hn.2 (hok c (by simp))
+      have hclen : c.length > 0 := List.length_pos_iff.mpr hnorm.1
+      rw [rnorm_normal_cons c r hn.1 hn.2]
+      cases r with
+      | nil =>
+        simp only [pos, joinSlash_single, rnorm]
+        rw [readFrom_comp _ c R hnorm.1 hnorm.2.1 hnorm.2.2.1]
+        rcases hR with hR | ⟨R', hR⟩
+        · subst hR
+          have : (hd ([] : Str) == '/') = false := by decide
+          simp only [this, Bool.false_eq_true, if_false]
+          rw [readFrom_short _ [] (by simp) (by simp)]
+        · subst hR
+          have : (hd ('/' :: R') == '/') = true := by simp [hd]
+          simp only [this, if_true]
+          rw [skips_short _ _ _ _ (Nat.le_refl _), readFrom_short _ _ (Nat.le_refl _) hRn]
+      | cons b r' =>
+        have hok1 := compsOk_tail hok
+        simp only [pos, joinSlash_cons_cons, List.append_assoc, List.cons_append]
+        rw [readFrom_comp _ c _ hnorm.1 hnorm.2.1 hnorm.2.2.1]
+        have : (hd ('/' :: (joinSlash (b :: r') ++ R)) == '/') = true := by simp [hd]
+        simp only [this, if_true]
+        have hH1 : R ≠ [] ∨ (esc 0 (b :: r') = 0 ∧ (b :: r').getLast? ≠ some []) := by
+          rcases hH with h | h
+          · exact Or.inl h
+          · right
+            rw [esc_normal_cons c _ hn.1 hn.2] at h
+            refine ⟨h.1, ?_⟩
+            have := h.2
+            simpa using this
+        rw [skips_true_comps R hR _ (b :: r') (by simp) hok1 (Nat.le_refl _) hH1]
+        rw [rnorm_eq_skn (b :: r') 0]
+        cases hs : skn 0 (b :: r') with
+        | nil =>
+          simp only [posS, joinSlash_single]
+          rw [readFrom_short _ R (Nat.le_refl _) hRn]
+        | cons c2 r2 =>
+          obtain ⟨pre, hpre⟩ := skn_suffix (b :: r') 0
+          rw [hs] at hpre
+          have hokS : compsOk (c2 :: r2) := by
+            have := hok1; rw [hpre] at this; exact compsOk_suffix this
+          have hn2 := skn_head _ _ _ _ hs
+          have hnorm2 := normalC_of c2 hn2.1 hn2.2 (hokS c2 (by simp))
+          have hlen2 : (joinSlash (c2 :: r2)).length ≤ (joinSlash (b :: r')).length := by
+            have h1 := joinSlash_suffix_length (c2 :: r2) pre
+            rw [← hpre] at h1; exact h1
+          have hH2 : R ≠ [] ∨ (esc 0 (c2 :: r2) = 0 ∧ (c2 :: r2).getLast? ≠ some []) := by
+            rcases hH1 with h | h
+            · exact Or.inl h
+            · right
+              refine ⟨by rw [← esc_eq_of_skn_cons _ _ _ _ hs]; exact h.1, ?_⟩
+              have := h.2
+              rw [hpre, getLast?_suffix_ne (by simp)] at this
+              exact this
+          have hl2 : (joinSlash (c2 :: r2)).length ≤ N := by
+            simp only [joinSlash_cons_cons, List.length_append, List.length_cons] at hl
+            omega
+          have ihc := ih (c2 :: r2) hl2 (fun c' r'' e => by
+            have := List.cons.inj e; rw [← this.1]; exact hn2) hokS hH2
+          -- one step of reading: the separator
+          simp only [posS]
+          rw [readFrom_eq]
+          have hsl : (hd ('/' :: (joinSlash (c2 :: r2) ++ R)) == NUL) = false := by simp [hd, NUL]
+          simp only [hsl, Bool.false_eq_true, if_false, hd, List.headD_cons]
+          have hadv : advance .fixed R.length ('/' :: (joinSlash (c2 :: r2) ++ R)) = pos R (c2 :: r2) := by
+            unfold advance
+            simp only [List.tail_cons]
+            have hne : joinSlash (c2 :: r2) ≠ [] := by
+              cases r2 with
+              | nil => simpa [joinSlash] using hnorm2.1
+              | cons b2 r3 => simp [joinSlash_cons_cons]
+            have hh2 : hd (joinSlash (c2 :: r2) ++ R) ≠ '/' := by
+              rw [hd_append_of_ne_nil hne]
+              cases hc2 : c2 with
+              | nil => exact absurd hc2 hnorm2.1
+              | cons d c2' =>
+                have hd1 : d ≠ '/' := fun e => hnorm2.2.1 (by rw [hc2]; simp [e])
+                cases r2 with
+                | nil => simpa [joinSlash, hd] using hd1
+                | cons b2 r3 => simpa [joinSlash_cons_cons, hd] using hd1
+            have : (hd (joinSlash (c2 :: r2) ++ R) == '/') = false := by simpa using hh2
+            simp only [this, Bool.false_eq_true, if_false]
+            rfl
+          rw [hadv, ihc, rnorm_normal_cons c2 r2 hn2.1 hn2.2]
+          have hne : ('/' == NUL) = false := by decide
+          simp [joinSlash_cons_cons, hne]
+
+/-! ### splitting and joining -/
+
+theorem splitSlash_ne_nil (s : Str) : splitSlash s ≠ [] := by
+  cases s with
+  | nil => simp [splitSlash]
+  | cons c r =>
+    simp only [splitSlash]
+    split
+    · simp
+    · split <;> simp
+
+theorem joinSlash_splitSlash (s : Str) : joinSlash (splitSlash s) = s := by
+  induction s with
+  | nil => rfl
+  | cons c r ih =>
+    simp only [splitSlash]
+    by_cases hc : c = '/'
+    · subst hc
+      simp only [beq_self_eq_true, if_true]
+      cases hs : splitSlash r with
+      | nil => exact absurd hs (splitSlash_ne_nil r)
+      | cons h t => rw [joinSlash_cons_cons, ← hs, ih]; rfl
+    · have hb : (c == '/') = false := by simp [hc]
+      simp only [hb, Bool.false_eq_true, if_false]
+      cases hs : splitSlash r with
+      | nil => exact absurd hs (splitSlash_ne_nil r)
+      | cons h t =>
+        rw [hs] at ih
+        simp only []
+        cases t with
+        | nil => simp only [joinSlash_single] at ih ⊢; rw [ih]
+        | cons b t' => rw [joinSlash_cons_cons] at ih ⊢; simp [ih]
+
+theorem splitSlash_no_slash (s : Str) : ∀ c ∈ splitSlash s, '/' ∉ c := by
+  induction s with
+  | nil => simp [splitSlash]
+  | cons d r ih =>
+    simp only [splitSlash]
+    by_cases hd' : d = '/'
+    · subst hd'
+      simp only [beq_self_eq_true, if_true, List.mem_cons]
+      rintro c (rfl | hc)
+      · simp
+      · exact ih c hc
+    · have hb : (d == '/') = false := by simp [hd']
+      simp only [hb, Bool.false_eq_true, if_false]
+      cases hs : splitSlash r with
+      | nil => exact absurd hs (splitSlash_ne_nil r)
+      | cons h t =>
+        rw [hs] at ih
+        simp only [List.mem_cons]
+        rintro c (rfl | hc)
+        · intro hm
+          simp only [List.mem_cons] at hm
+          rcases hm with hm | hm
+          · exact hd' hm.symm
+          · exact ih h (by simp) hm
+        · exact ih c (by simp [hc])
+
+theorem splitSlash_mem (s : Str) : ∀ c ∈ splitSlash s, ∀ x ∈ c, x ∈ s := by
+  induction s with
+  | nil => simp [splitSlash]
+  | cons d r ih =>
+    simp only [splitSlash]
+    by_cases hd' : d = '/'
+    · subst hd'
+      simp only [beq_self_eq_true, if_true, List.mem_cons]
+      rintro c (rfl | hc) x hx
+      · simp at hx
+      · exact Or.inr (ih c hc x hx)
+    · have hb : (d == '/') = false := by simp [hd']
+      simp only [hb, Bool.false_eq_true, if_false]
+      cases hs : splitSlash r with
+      | nil => exact absurd hs (splitSlash_ne_nil r)
+      | cons h t =>
+        rw [hs] at ih
+        simp only [List.mem_cons]
+        rintro c (rfl | hc) x hx
+        · simp only [List.mem_cons] at hx
+          rcases hx with hx | hx
+          · exact Or.inl hx
+          · exact Or.inr (ih h (by simp) x hx)
+        · exact Or.inr (ih c (by simp [hc]) x hx)
+
+theorem splitSlash_snoc_sep (s : Str) : splitSlash (s ++ ['/']) = splitSlash s ++ [[]] := by
+  induction s with
+  | nil => rfl
+  | cons d r ih =>
+    simp only [List.cons_append, splitSlash]
+    by_cases hd' : d = '/'
+    · subst hd'; simp [ih]
+    · have hb : (d == '/') = false := by simp [hd']
+      simp only [hb, Bool.false_eq_true, if_false, ih]
+      cases hs : splitSlash r with
+      | nil => exact absurd hs (splitSlash_ne_nil r)
+      | cons h t => simp
+
+theorem splitSlash_snoc_char (c : Char) (hc : c ≠ '/') : ∀ (s : Str) (A : List Str) (l : Str),
+    splitSlash s = A ++ [l] → splitSlash (s ++ [c]) = A ++ [l ++ [c]] := by
+  have hb : (c == '/') = false := by simp [hc]
+  intro s
+  induction s with
+  | nil =>
+    intro A l h
+    have : A = [] ∧ l = [] := by
+      cases A with
+      | nil => simpa [splitSlash] using h.symm
+      | cons a A' =>
+        simp [splitSlash] at h
+    obtain ⟨rfl, rfl⟩ := this
+    simp [splitSlash, hb]
+  | cons d r ih =>
+    intro A l h
+    simp only [List.cons_append, splitSlash] at h ⊢
+    by_cases hd' : d = '/'
+    · subst hd'
+      simp only [beq_self_eq_true, if_true] at h ⊢
+      cases A with
+      | nil =>
+        have := congrArg List.length h
+        have hn := splitSlash_ne_nil r
+        cases hr : splitSlash r with
+        | nil => exact absurd hr hn
+        | cons x y => rw [hr] at this; simp at this
+      | cons a A' =>
+        have h' := List.cons.inj h
+        rw [ih A' l h'.2, ← h'.1]; rfl
+    · have hb2 : (d == '/') = false := by simp [hd']
+      simp only [hb2, Bool.false_eq_true, if_false] at h ⊢
+      cases hs : splitSlash r with
+      | nil => exact absurd hs (splitSlash_ne_nil r)
+      | cons hh t =>
+        rw [hs] at h
+        simp only [] at h
+        cases A with
+        | nil =>
+          have h' := List.cons.inj h
+          have ht : t = [] := h'.2
+          subst ht
+          rw [ih [] hh (by simp [hs])]
+          simp [← h'.1]
+        | cons a A' =>
+          have h' := List.cons.inj h
+          rw [ih (hh :: A') l (by rw [hs, h'.2]; rfl)]
+          simp [← h'.1]
+
+theorem splitSlash_reverse (s : Str) : splitSlash s.reverse = ((splitSlash s).map List.reverse).reverse := by
+  induction s with
+  | nil => rfl
+  | cons d r ih =>
+    simp only [List.reverse_cons, splitSlash]
+    by_cases hd' : d = '/'
+    · subst hd'
+      simp only [beq_self_eq_true, if_true, List.map_cons, List.reverse_cons, List.reverse_nil]
+      rw [splitSlash_snoc_sep, ih]
+    · have hb : (d == '/') = false := by simp [hd']
+      simp only [hb, Bool.false_eq_true, if_false]
+      cases hs : splitSlash r with
+      | nil => exact absurd hs (splitSlash_ne_nil r)
+      | cons h t =>
+        rw [hs] at ih
+        simp only [List.map_cons, List.reverse_cons] at ih ⊢
+        rw [splitSlash_snoc_char d hd' r.reverse _ _ ih]
+
+
+theorem joinSlash_snoc (X : List Str) (y : Str) (h : X ≠ []) : joinSlash (X ++ [y]) = joinSlash X ++ '/' :: y := by
+  induction X with
+  | nil => exact absurd rfl h
+  | cons a X ih =>
+    cases X with
+    | nil => rfl
+    | cons b X' =>
+      simp only [List.cons_append, joinSlash_cons_cons] at ih ⊢
+      rw [ih (by simp)]
+      simp
+
+theorem joinSlash_reverse (M : List Str) : (joinSlash M).reverse = joinSlash ((M.map List.reverse).reverse) := by
+  induction M with
+  | nil => rfl
+  | cons a M ih =>
+    cases M with
+    | nil => simp [joinSlash]
+    | cons b M' =>
+      have e1 : ((a :: b :: M').map List.reverse).reverse = ((b :: M').map List.reverse).reverse ++ [a.reverse] := by simp
+      rw [joinSlash_cons_cons, e1, joinSlash_snoc _ _ (by simp), ← ih]
+      simp
+
+theorem reverse_eq_dot (c : Str) : (c.reverse == dot) = (c == dot) := by
+  by_cases h : c = dot
+  · subst h; rfl
+  · have : c.reverse ≠ dot := by
+      intro e; apply h
+      have := congrArg List.reverse e
+      simpa [dot] using this
+    rw [beq_eq_false_iff_ne.mpr this, beq_eq_false_iff_ne.mpr h]
+
+theorem ignorable_reverse (c : Str) : ignorable c.reverse = ignorable c := by
+  simp only [ignorable, reverse_eq_dot]
+  congr 1
+  cases c <;> simp
+
+theorem dotdot_reverse (c : Str) : (c.reverse == dotdot) = (c == dotdot) := by
+  by_cases h : c = dotdot
+  · subst h; rfl
+  · have : c.reverse ≠ dotdot := by
+      intro e; apply h
+      have := congrArg List.reverse e
+      simpa [dotdot] using this
+    rw [beq_eq_false_iff_ne.mpr this, beq_eq_false_iff_ne.mpr h]
+
+theorem rnorm_map_reverse : ∀ (cs : List Str) (n : Nat),
+    rnorm n (cs.map List.reverse) = (rnorm n cs).map List.reverse := by
+  intro cs
+  induction cs with
+  | nil => intro n; rfl
+  | cons c cs ih =>
+    intro n
+    simp only [List.map_cons, rnorm, ignorable_reverse, dotdot_reverse]
+    split
+    · exact ih n
+    · split
+      · exact ih _
+      · split
+        · exact ih _
+        · simp [ih]
+
+theorem esc_map_reverse : ∀ (cs : List Str) (n : Nat), esc n (cs.map List.reverse) = esc n cs := by
+  intro cs
+  induction cs with
+  | nil => intro n; rfl
+  | cons c cs ih =>
+    intro n
+    simp only [List.map_cons, esc, ignorable_reverse, dotdot_reverse]
+    split
+    · exact ih n
+    · split
+      · exact ih _
+      · exact ih _
+
+/-! ### the stack of the documented canonical form, top first, is the list of surviving components in reading order -/
+
+theorem esc_ge_of_rnorm_nil : ∀ (cs : List Str) (j : Nat), rnorm 0 cs = [] → j ≤ esc j cs := by
+  intro cs j h
+  rw [rnorm_eq_skn] at h
+  cases hs : skn 0 cs with
+  | nil => have := esc_of_skn_nil cs 0 j hs; simpa using this
+  | cons c r => rw [hs] at h; simp at h
+
+theorem fold_eq_rnorm (rooted : Bool) : ∀ (M : List Str) (n : Nat), (rooted = true ∨ esc n M = 0) →
+    rnorm n M = (M.foldr (fun c st => canonStep rooted st c) []).drop n ∧
+    (∀ x ∈ M.foldr (fun c st => canonStep rooted st c) [], x ≠ dotdot) := by
+  intro M
+  induction M with
+  | nil => intro n _; simp [rnorm]
+  | cons c M ih =>
+    intro n hH
+    simp only [List.foldr_cons]
+    generalize hst : M.foldr (fun c st => canonStep rooted st c) [] = st at ih ⊢
+    by_cases h1 : ignorable c = true
+    · have hH' : rooted = true ∨ esc n M = 0 := by
+        rcases hH with h | h
+        · exact Or.inl h
+        · right; simpa [esc, h1] using h
+      have hs : canonStep rooted st c = st := by
+        simp only [ignorable, Bool.or_eq_true, beq_iff_eq] at h1
+        rcases h1 with h | h
+        · subst h; simp [canonStep]
+        · subst h; simp [canonStep]
+      rw [hs]
+      simp only [rnorm, h1, if_true]
+      exact ih n hH'
+    · have h1' : ignorable c = false := by simpa using h1
+      by_cases h2 : (c == dotdot) = true
+      · have hH' : rooted = true ∨ esc (n + 1) M = 0 := by
+          rcases hH with h | h
+          · exact Or.inl h
+          · right; simpa [esc, h1', h2] using h
+        have hH0 : rooted = true ∨ esc 0 M = 0 := by
+          rcases hH' with h | h
+          · exact Or.inl h
+          · right; have := esc_mono M 0 (n + 1) (by omega); omega
+        obtain ⟨ih1, ih2⟩ := ih (n + 1) hH'
+        have hc : c = dotdot := by simpa using h2
+        simp only [rnorm, h1', Bool.false_eq_true, if_false, h2, if_true]
+        cases st with
+        | nil =>
+          cases rooted with
+          | true =>
+            have hs : canonStep true [] c = [] := by
+              simp only [ignorable, Bool.or_eq_false_iff] at h1'
+              simp [canonStep, h1'.1, h1'.2, h2]
+            rw [hs]
+            simpa using ih1
+          | false =>
+            -- excluded: a `..` with nothing in front of it
+            exfalso
+            rcases hH' with h | h
+            · cases h
+            · have h0 := (ih 0 (by right; have := esc_mono M 0 (n + 1) (by omega); omega)).1
+              simp only [List.drop_zero] at h0
+              have := esc_ge_of_rnorm_nil M (n + 1) h0
+              omega
+        | cons top rest =>
+          have htop : top ≠ dotdot := ih2 top (by simp)
+          have hs : canonStep rooted (top :: rest) c = rest := by
+            simp only [ignorable, Bool.or_eq_false_iff] at h1'
+            simp [canonStep, h1'.1, h1'.2, h2, htop]
+          rw [hs]
+          refine ⟨by simpa using ih1, fun x hx => ih2 x (by simp [hx])⟩
+      · have h2' : (c == dotdot) = false := by simpa using h2
+        have hs : canonStep rooted st c = c :: st := by
+          simp only [ignorable, Bool.or_eq_false_iff] at h1'
+          simp [canonStep, h1'.1, h1'.2, h2']
+        rw [hs]
+        have hcne : c ≠ dotdot := by simpa using h2'
+        simp only [rnorm, h1', Bool.false_eq_true, if_false, h2']
+        by_cases h3 : n > 0
+        · have hH' : rooted = true ∨ esc (n - 1) M = 0 := by
+            rcases hH with h | h
+            · exact Or.inl h
+            · right; simpa [esc, h1', h2'] using h
+          obtain ⟨ih1, ih2⟩ := ih (n - 1) hH'
+          simp only [h3, if_true]
+          refine ⟨?_, ?_⟩
+          · rw [ih1]
+            cases n with
+            | zero => omega
+            | succ m => simp
+          · intro x hx
+            simp only [List.mem_cons] at hx
+            rcases hx with rfl | hx
+            · exact hcne
+            · exact ih2 x hx
+        · have hn : n = 0 := by omega
+          subst hn
+          have hH' : rooted = true ∨ esc 0 M = 0 := by
+            rcases hH with h | h
+            · exact Or.inl h
+            · right; simpa [esc, h1', h2'] using h
+          obtain ⟨ih1, ih2⟩ := ih 0 hH'
+          simp only [Nat.lt_irrefl, if_false, List.drop_zero, gt_iff_lt] at ih1 ⊢
+          refine ⟨by rw [ih1], ?_⟩
+          intro x hx
+          simp only [List.mem_cons] at hx
+          rcases hx with rfl | hx
+          · exact hcne
+          · exact ih2 x hx
+
+/-- the documented component stack = the surviving components found reading backwards -/
+theorem canonComps_eq_rnorm (rooted : Bool) (L : List Str) (h : rooted = true ∨ esc 0 L.reverse = 0) :
+    canonComps rooted L = (rnorm 0 L.reverse).reverse := by
+  have := (fold_eq_rnorm rooted L.reverse 0 h).1
+  simp only [List.drop_zero] at this
+  rw [this, canonComps, List.foldr_reverse]
+
+
+theorem rnorm_skn (cs : List Str) : rnorm 0 (skn 0 cs) = rnorm 0 cs := by
+  rw [rnorm_eq_skn cs 0]
+  cases hs : skn 0 cs with
+  | nil => rfl
+  | cons c r =>
+    have := skn_head cs 0 c r hs
+    simp only []
+    exact rnorm_normal_cons c r this.1 this.2
+
+/-- **the repaired iterator reads the documented canonical form** (abstract form: `root` leading characters of the
+    mapped raw string `raw` are the root) -/
+theorem read_eq_canon (root : Nat) (raw : Str) (hn : NUL ∉ raw) (hdom : CanonDomain root raw = true) :
+    (readFrom .fixed root (skips .fixed root false raw.reverse)).reverse = canon root raw := by
+  simp only [CanonDomain, Bool.and_eq_true, decide_eq_true_eq, Bool.or_eq_true, bne_iff_ne, ne_eq] at hdom
+  obtain ⟨⟨hlen, hclosed⟩, hrel⟩ := hdom
+  -- the pieces
+  let R := (raw.take root).reverse
+  let rest := raw.drop root
+  have hRlen : R.length = root := by simp [R, Nat.min_eq_left hlen]
+  have hraw : raw.reverse = rest.reverse ++ R := by
+    have : raw = raw.take root ++ raw.drop root := (List.take_append_drop root raw).symm
+    conv => lhs; rw [this]
+    simp [R, rest]
+  have hR : R = [] ∨ ∃ R', R = '/' :: R' := by
+    simp only [closedRoot, Bool.or_eq_true, beq_iff_eq] at hclosed
+    rcases hclosed with h | h
+    · left; subst h; simp [R]
+    · right
+      have : R.head? = some '/' := by simpa [R, List.head?_reverse] using h
+      cases hR' : R with
+      | nil => rw [hR'] at this; simp at this
+      | cons d R' =>
+        rw [hR'] at this
+        have : d = '/' := by simpa using this
+        subst this; exact ⟨R', rfl⟩
+  have hRn : NUL ∉ R := by
+    intro h
+    apply hn
+    have : NUL ∈ raw.take root := by simpa [R] using h
+    exact List.mem_of_mem_take this
+  have hrestn : NUL ∉ rest := fun h => hn (List.mem_of_mem_drop h)
+  let L := splitSlash rest
+  let cs0 := splitSlash rest.reverse
+  have hcs0 : cs0 = (L.reverse).map List.reverse := by
+    simp only [cs0, L, splitSlash_reverse, List.map_reverse]
+  have hx : rest.reverse = joinSlash cs0 := (joinSlash_splitSlash _).symm
+  have hok : compsOk cs0 := by
+    intro c hc
+    refine ⟨splitSlash_no_slash _ c hc, ?_⟩
+    intro hm
+    have := splitSlash_mem _ c hc NUL hm
+    exact hrestn (by simpa using this)
+  have hrooted : root > 0 → R ≠ [] := by
+    intro h e
+    rw [e] at hRlen
+    simp at hRlen
+    omega
+  have hesc : root > 0 ∨ esc 0 cs0 = 0 := by
+    rcases hrel with h | h
+    · exact Or.inl h
+    · right
+      have := h.1
+      simp only [noEscape, beq_iff_eq] at this
+      rw [hcs0, esc_map_reverse]
+      exact this
+  have hHF : R ≠ [] ∨ esc 0 cs0 = 0 := hesc.elim (fun h => Or.inl (hrooted h)) Or.inr
+  have hF := skips_false_comps R hR _ cs0 (splitSlash_ne_nil _) hok (Nat.le_refl _) hHF
+  rw [hRlen] at hF
+  rw [hraw, hx, hF]
+  -- reading
+  have hHR : R ≠ [] ∨ (esc 0 (skn 0 cs0) = 0 ∧ (skn 0 cs0).getLast? ≠ some []) := by
+    rcases hesc with h | h
+    · exact Or.inl (hrooted h)
+    · by_cases hr0 : R ≠ []
+      · exact Or.inl hr0
+      · right
+        cases hs : skn 0 cs0 with
+        | nil => simp [esc]
+        | cons c r =>
+          refine ⟨by rw [← esc_eq_of_skn_cons _ _ _ _ hs]; exact h, ?_⟩
+          obtain ⟨pre, hpre⟩ := skn_suffix cs0 0
+          rw [hs] at hpre
+          rw [← getLast?_suffix_ne (pre := pre) (by simp : c :: r ≠ []), ← hpre]
+          -- the last component in reading order is the first component of the string, which does not start with '/'
+          have hroot0 : root = 0 := by
+            have : R = [] := by simpa using hr0
+            rw [this] at hRlen; simpa using hRlen.symm
+          have hrest : rest = raw := by simp [rest, hroot0]
+          rcases hrel with h' | h'
+          · omega
+          · have hhead := h'.2
+            rw [hcs0]
+            simp only [List.map_reverse, List.getLast?_reverse, List.head?_map]
+            cases hL : L with
+            | nil => exact absurd hL (splitSlash_ne_nil _)
+            | cons a A =>
+              simp only [List.head?_cons, Option.map_some, Option.some.injEq, List.reverse_eq_nil_iff]
+              intro ha
+              have ha' : a = [] := by simpa using ha
+              subst ha'
+              -- `splitSlash raw` starts with the empty component: raw is empty or starts with '/'
+              cases hraw' : raw with
+              | nil =>
+                -- then nothing survives
+                have : cs0 = [[]] := by simp [cs0, hrest, hraw', splitSlash]
+                rw [this] at hs
+                simp [skn, ignorable] at hs
+              | cons d raw' =>
+                have hd' : d ≠ '/' := by
+                  intro e; apply hhead; rw [hraw', e]; rfl
+                have : L = splitSlash (d :: raw') := by simp [L, hrest, hraw']
+                rw [hL] at this
+                simp only [splitSlash] at this
+                have hb : (d == '/') = false := by simp [hd']
+                simp only [hb, Bool.false_eq_true, if_false] at this
+                split at this <;> simp at this
+  have hRd := readFrom_pos R hR hRn _ (skn 0 cs0) (Nat.le_refl _) (headNormal_skn 0 cs0)
+    (by obtain ⟨pre, hpre⟩ := skn_suffix cs0 0; rw [hpre] at hok; exact compsOk_suffix hok) hHR
+  rw [hRlen] at hRd
+  rw [hRd]
+  rw [rnorm_skn, List.reverse_append, joinSlash_reverse, hcs0, rnorm_map_reverse]
+  simp only [List.map_map, R, List.reverse_reverse]
+  have hid : (List.reverse ∘ List.reverse : Str → Str) = id := by funext l; simp
+  rw [hid, List.map_id]
+  unfold canon
+  congr 1
+  have hcan := canonComps_eq_rnorm (decide (root > 0)) L (by
+    rcases hrel with h | h
+    · left; simpa using h
+    · right
+      have := h.1
+      simpa [noEscape] using this)
+  rw [hcan]
+
+/-! ### the iterator object -/
+
+theorem cstr_no_nul (s : Str) : NUL ∉ cstr s := by
+  induction s with
+  | nil => simp [cstr]
+  | cons c r ih =>
+    simp only [cstr, List.takeWhile_cons]
+    split
+    · rename_i h
+      intro hm
+      simp only [List.mem_cons] at hm
+      rcases hm with hm | hm
+      · simp [hm] at h
+      · exact ih hm
+    · simp
+
+theorem toNat_ofNat_valid (n : Nat) (h : n.isValidChar) : (Char.ofNat n).toNat = n := by
+  rw [Char.ofNat, dif_pos h]
+  simp only [Char.ofNatAux, Char.toNat]
+  exact UInt32.toNat_ofNatLT ..
+
+theorem toLowerAscii_ne_nul (c : Char) (h : c ≠ NUL) : toLowerAscii c ≠ NUL := by
+  unfold toLowerAscii
+  split
+  · rename_i hr
+    simp only [Bool.and_eq_true, decide_eq_true_eq] at hr
+    intro e
+    have h1 : 65 ≤ c.toNat := hr.1
+    have h2 : c.toNat ≤ 90 := hr.2
+    have hv : (c.toNat + 32).isValidChar := by left; omega
+    have := congrArg Char.toNat e
+    rw [toNat_ofNat_valid _ hv] at this
+    simp [NUL] at this
+  · exact h
+
+theorem mapChar_ne_nul (syn : Syntax) (c : Char) (h : c ≠ NUL) : mapChar syn c ≠ NUL := by
+  cases syn with
+  | unix => exact h
+  | windows =>
+    simp only [mapChar]
+    split
+    · decide
+    · exact toLowerAscii_ne_nul c h
+
+theorem rawOf_no_nul (syn : Syntax) (a b : Str) : NUL ∉ (rawOf syn a b).2 := by
+  simp only [rawOf, List.mem_map, not_exists, not_and]
+  intro c hc
+  apply mapChar_ne_nul
+  intro e
+  subst e
+  simp only [joinRaw, List.mem_append] at hc
+  rcases hc with (hc | hc) | hc
+  · exact cstr_no_nul a hc
+  · split at hc
+    · simp [NUL] at hc
+    · simp at hc
+  · exact cstr_no_nul b hc
+
+/-- **C31 `pathiter_eq_canon`**: for every pair of strings and both syntaxes, the repaired `PathIterator` reads the
+    documented canonical form of the joined path, inside the documented domain (root closed by a separator; without
+    a root no `..` above the start) -/
+theorem iter_read_eq_canon (syn : Syntax) (a b : Str)
+    (h : CanonDomain (rawOf syn a b).1 (rawOf syn a b).2 = true) :
+    (Iter.mk' .fixed syn a b).read .fixed = canonOf syn a b := by
+  have := read_eq_canon (rawOf syn a b).1 (rawOf syn a b).2 (rawOf_no_nul syn a b) h
+  simpa [Iter.read, Iter.stream_def, Iter.mk', canonOf, rawOf] using this
+
+theorem iter_stream_eq_canon (syn : Syntax) (a b : Str)
+    (h : CanonDomain (rawOf syn a b).1 (rawOf syn a b).2 = true) :
+    (Iter.mk' .fixed syn a b).stream .fixed = (canonOf syn a b).reverse := by
+  have := iter_read_eq_canon syn a b h
+  simp only [Iter.read] at this
+  rw [← this, List.reverse_reverse]
+
 end Cppcheck.PathCanon
